@@ -43,6 +43,7 @@ macro_rules! dispatch {
             "C14" => $f(&checks::c14::C14, $($arg),*),
             "C17" => $f(&checks::c17::C17, $($arg),*),
             "C19" => $f(&checks::c19::C19, $($arg),*),
+            "C20" => $f(&checks::c20::C20, $($arg),*),
             "C05" => $f(&checks::c05::C05, $($arg),*),
             other => {
                 eprintln!("harness error: unknown or unclaimed property {}", other);
